@@ -17,7 +17,7 @@ pub fn def() -> PropDef {
 fn run(r: &mut Run) -> Result<(), MachineryError> {
     let t = r.tier;
     let alpha = [L, SP, NL, E2, W, HY, CR, TAB, CSI, CSIS];
-    let n = t.pick(5, 7);
+    let n = t.pick(6, 8);
     let space = Space { name: "C17/texts".into(), menu: menu(&alpha), max_len: n, desc: format!("texts of length <= {} x widths 0..=display width+2, MAX", n) };
     r.space(space, |seq, cx| {
         let text = build(seq, &alpha);
